@@ -73,6 +73,7 @@ func (vc *VC) generate() (err error) {
 	vc.entry = &State{cells: map[*ssa.Alloc]Term{}, comps: map[string]Term{}}
 	vc.cur = vc.entry
 	vc.curReach = "true"
+	vc.ghostLocals = map[string]*SType{}
 	// next >= 1
 	vc.assumeGlobal(app(">=", vc.next(vc.entry), "1"))
 	// parameters (receiver first), bound positionally to the contract's names
@@ -121,13 +122,20 @@ func (vc *VC) generate() (err error) {
 			}
 		}
 	}
+	for _, c := range d.Clauses {
+		if c.Kind == "ghostlocal" {
+			gt := vc.resolveType(c.Type, vc.ctx(vc.entry, vc.entry).pkg, nil)
+			vc.ghostLocals[c.Str] = gt
+			vc.setComp(vc.entry, "L."+c.Str, vc.ssort(gt), vc.specZero(gt))
+		}
+	}
 	entry := vc.entry.clone()
 	vc.entry = entry.clone()
 	vc.cur = entry
 	// preconditions
 	ctx := vc.ctx(vc.cur, vc.entry)
 	for _, c := range d.Clauses {
-		if c.Kind == "requires" {
+		if c.Kind == "requires" || (c.Kind == "carveout" && vc.carved) {
 			vc.assumeGlobal(ctx.formula(c.E))
 		}
 	}
@@ -483,7 +491,7 @@ func (vc *VC) backEdge(li *loopInfo, cond Term) {
 		preNext := vc.next(li.framePre)
 		for _, c := range li.comps {
 			s, ok := vc.compSort[c]
-			if !ok || c == compNext || li.frameWhole[c] || strings.HasPrefix(c, "R.") || strings.HasPrefix(c, "I.") {
+			if !ok || c == compNext || li.frameWhole[c] || strings.HasPrefix(c, "R.") || strings.HasPrefix(c, "I.") || strings.HasPrefix(c, "L.") {
 				continue
 			}
 			cur := vc.comp(vc.cur, c, s)
@@ -561,6 +569,9 @@ func (vc *VC) loopWrites(li *loopInfo) ([]*ssa.Alloc, []string) {
 				vc.callWrites(x, compSet)
 			}
 		}
+	}
+	for g := range vc.ghostLocals {
+		compSet["L."+g] = true
 	}
 	var cells []*ssa.Alloc
 	for c := range cellSet {
@@ -1003,7 +1014,11 @@ func (vc *VC) load(lv *LV) Term {
 		}
 	case lvElem:
 		cs := "(Array Int (Array Int " + vc.reg.sortOf(lv.base) + "))"
-		v = app("select", app("select", vc.comp(vc.cur, lv.comp, cs), lv.ref), lv.idx)
+		if lv.off != "" {
+			v = app(vc.reg.eltFn(vc.reg.sortOf(lv.base)), app("select", vc.comp(vc.cur, lv.comp, cs), lv.ref), lv.off, lv.rel)
+		} else {
+			v = app("select", app("select", vc.comp(vc.cur, lv.comp, cs), lv.ref), lv.idx)
+		}
 	}
 	return vc.selPath(v, lv.path)
 }
@@ -1151,7 +1166,8 @@ func (vc *VC) indexAddr(x *ssa.IndexAddr) {
 		s := vc.val(x.X)
 		vc.safe("idx", and(app("<=", "0", idx), app("<", idx, app("ys.len", s))), x.Pos())
 		c, _ := vc.elemsComp(u.Elem())
-		vc.lvs[x] = &LV{kind: lvElem, comp: c, ref: app("ys.arr", s), idx: vc.define("ix", sInt, app("+", app("ys.off", s), idx)), typ: u.Elem(), base: u.Elem()}
+		off := vc.define("off", sInt, app("ys.off", s))
+		vc.lvs[x] = &LV{kind: lvElem, comp: c, ref: app("ys.arr", s), idx: vc.define("ix", sInt, app("+", off, idx)), off: off, rel: idx, typ: u.Elem(), base: u.Elem()}
 	case *types.Pointer:
 		arr := u.Elem().Underlying().(*types.Array)
 		vc.safe("idx", and(app("<=", "0", idx), app("<", idx, fmt.Sprint(arr.Len()))), x.Pos())
@@ -1484,6 +1500,13 @@ func (vc *VC) binop(x *ssa.BinOp) {
 	case isInteger(t):
 		switch x.Op {
 		case token.ADD:
+			if u, ok := x.X.(*ssa.UnOp); ok && u.Op == token.MUL {
+				if al, ok := u.X.(*ssa.Alloc); ok && al.Comment == "rangeindex" {
+					// the hidden counter of a range-over-slice loop: bounded by the slice length, never overflows
+					vc.setVal(x, app("+", a, b))
+					break
+				}
+			}
 			vc.setVal(x, vc.arithResult(app("+", a, b), x.Type(), x.Pos()))
 		case token.SUB:
 			vc.setVal(x, vc.arithResult(app("-", a, b), x.Type(), x.Pos()))
@@ -1587,26 +1610,25 @@ func (vc *VC) convert(x *ssa.Convert) {
 	case isInteger(from) && isInteger(to):
 		vc.setVal(x, vc.intConv(v, to, x.Pos()))
 	case isInteger(from) && isFloat(to):
-		if vc.floatMode == "ieee" {
-			vc.setVal(x, app("(_ to_fp 11 53)", "RNE", app("to_real", v)))
+		if isIntLit(v) {
+			vc.vals[x] = intAsFloat(v)
 		} else {
-			vc.reg.decl("ys.i2f", "(declare-fun ys.i2f (Int) Float64)")
+			vc.convFns()
 			vc.setVal(x, app("ys.i2f", v))
 		}
 	case isFloat(from) && isInteger(to):
+		// Go: a float->int conversion of a value that does not fit is implementation-defined (no
+		// panic). The obligation "conv" states that the value fits; the result is then exact.
+		vc.convFns()
 		rg := intRanges[to.Underlying().(*types.Basic).Kind()]
+		ok := app("ys.f2i.ok", v)
+		r := vc.define("f2i", sInt, app("ys.f2i", v))
 		if vc.floatMode == "ieee" {
-			r := vc.define("f2i", sInt, app("to_int", app("fp.to_real", app("fp.roundToIntegral", "RTZ", v))))
-			vc.safe("conv", and(not(app("fp.isNaN", v)), not(app("fp.isInfinite", v)), app("<=", rg[0], r), app("<=", r, rg[1])), x.Pos())
-			vc.vals[x] = r
-		} else {
-			vc.reg.decl("ys.f2i", "(declare-fun ys.f2i (Float64) Int)")
-			vc.reg.decl("ys.f2i.ok", "(declare-fun ys.f2i.ok (Float64) Bool)")
-			vc.safe("conv", app("ys.f2i.ok", v), x.Pos())
-			r := vc.define("f2i", sInt, app("ys.f2i", v))
-			vc.assume(and(app("<=", rg[0], r), app("<=", r, rg[1])))
-			vc.vals[x] = r
+			ok = and(ok, app("<=", rg[0], r), app("<=", r, rg[1]))
 		}
+		vc.safe("conv", ok, x.Pos())
+		vc.assume(and(app("<=", rg[0], r), app("<=", r, rg[1])))
+		vc.vals[x] = r
 	case isFloat(from) && isFloat(to):
 		if typeKey(from.Underlying()) != typeKey(to.Underlying()) {
 			panic(unsupported("float32 conversion"))
@@ -1641,6 +1663,26 @@ func (vc *VC) convert(x *ssa.Convert) {
 		}
 		panic(unsupported(fmt.Sprintf("conversion %s -> %s", from, to)))
 	}
+}
+
+// convFns declares the float<->int conversion functions. In ieee mode they are constrained by
+// theorems of IEEE-754 / integer semantics (the conversion of an in-range value truncates; converting
+// the truncated value back is exact); in opaque mode they are uninterpreted.
+func (vc *VC) convFns() {
+	if vc.reg.have["ys.f2i"] {
+		return
+	}
+	d := "(declare-fun ys.f2i (Float64) Int)\n(declare-fun ys.i2f (Int) Float64)\n"
+	if vc.floatMode == "ieee" {
+		two63 := floatLit(9223372036854775808.0)
+		d += fmt.Sprintf("(define-fun ys.f2i.ok ((x Float64)) Bool (and (not (fp.isNaN x)) (not (fp.isInfinite x)) (fp.lt x %s) (fp.geq x (fp.neg %s))))\n", two63, two63)
+		d += "(assert (forall ((x Float64)) (! (=> (ys.f2i.ok x) (and (fp.eq (ys.i2f (ys.f2i x)) (fp.roundToIntegral RTZ x)) (<= (- 9223372036854775808) (ys.f2i x)) (<= (ys.f2i x) 9223372036854775807))) :pattern ((ys.f2i x)))))\n"
+		d += "(assert (forall ((i Int)) (! (and (not (fp.isNaN (ys.i2f i))) (not (fp.isInfinite (ys.i2f i))) (not (and (fp.isZero (ys.i2f i)) (fp.isNegative (ys.i2f i)))) (= (fp.isZero (ys.i2f i)) (= i 0))) :pattern ((ys.i2f i)))))\n"
+		d += fmt.Sprintf("(assert (forall ((i Int)) (! (=> (and (<= (- 9007199254740992) i) (<= i 9007199254740992)) (= (ys.f2i (ys.i2f i)) i)) :pattern ((ys.i2f i)))))")
+	} else {
+		d += "(declare-fun ys.f2i.ok (Float64) Bool)"
+	}
+	vc.reg.decl("ys.f2i", d)
 }
 
 func (vc *VC) intConv(v Term, to types.Type, pos token.Pos) Term {
@@ -1710,7 +1752,7 @@ func (vc *VC) frame(pos token.Pos, k int) {
 	sort.Strings(names)
 	entryNext := vc.compEntry(compNext, sInt)
 	for _, c := range names {
-		if c == compNext || strings.HasPrefix(c, "I.") || strings.HasPrefix(c, "R.") || whole[c] {
+		if c == compNext || strings.HasPrefix(c, "I.") || strings.HasPrefix(c, "R.") || strings.HasPrefix(c, "L.") || whole[c] {
 			continue
 		}
 		cur := vc.cur.comps[c]
